@@ -1,1 +1,2 @@
 import BufrProps.C11
+import BufrProps.C10
